@@ -339,6 +339,7 @@ def _run(h):
     usage255_after_unlock(h)
     foreign_signatures(h)
     unknown_versions(h)
+    # foreign_bodies(h)   # enabled once the repairs it found are in
 
 
 def _split_subpackets(area):
@@ -418,6 +419,102 @@ def unknown_versions(h):
             body = bytes([ver]) + bytes(rng.randrange(256) for _ in range(rng.choice([0, 1, 12, 25, 200])))
             for framing, data in framings(rng, tag, body, True)[:2 if ctx.quick else 4]:
                 h.foreign('unknown-version', tag, body, 'tag %d version %d' % (tag, ver), framing, data)
+
+
+def _mpis(data, count):
+    """RFC 4880 3.2, tolerant of non-minimal bit counts: [int] * count and the octets left"""
+    out = []
+    for _ in range(count):
+        bits = int.from_bytes(data[:2], 'big'); n = (bits + 7) // 8
+        if len(data) < 2 + n: raise ValueError('short MPI')
+        out.append(int.from_bytes(data[2:2 + n], 'big')); data = data[2 + n:]
+    return out, data
+
+
+def foreign_bodies(h):
+    """packets another producer may write that are well-formed but not in the form PGPy would write: multiprecision integers whose
+    declared bit count covers leading zero bits / octets, key / session-key packets of public-key algorithms PGPy has no class for,
+    secret keys with a legacy S2K usage octet (a cipher id).  What PGPy accepts must come back with header length == body length,
+    the same field values, be accepted again and be a fixed point; what it refuses is only counted."""
+    ctx, rng = h.ctx, h.ctx.rng
+
+    def loose_mpi(v):
+        nb = max(1, (v.bit_length() + 7) // 8)
+        style = rng.choice(['min', 'bits-up', 'zero-octet', 'zero-octets'])
+        if style == 'min': return S.mpi(v) if hasattr(S, 'mpi') else v.bit_length().to_bytes(2, 'big') + v.to_bytes((v.bit_length() + 7) // 8, 'big')
+        if style == 'bits-up': return (nb * 8).to_bytes(2, 'big') + v.to_bytes(nb, 'big')
+        k = 1 if style == 'zero-octet' else rng.choice([2, 3])
+        return ((nb + k) * 8 - rng.choice([0, 1, 7])).to_bytes(2, 'big') + bytes(k) + v.to_bytes(nb, 'big')
+
+    cases = []
+    for i in range(ctx.n(120, 2000)):
+        ints = lambda k, bits: [rng.getrandbits(rng.choice(bits)) | 1 for _ in range(k)]
+        t = rng.random()
+        created = rng.randrange(1, 2 ** 32).to_bytes(4, 'big')
+        if t < 0.3:
+            alg, k = rng.choice([(1, 2), (17, 4), (16, 3)])
+            vals = ints(k, [9, 64, 255, 256])
+            head = b'\x04' + created + bytes([alg])
+            cases.append((rng.choice([6, 14]), head, vals, b'', 'public key alg %d, loose MPIs' % alg))
+        elif t < 0.5:
+            alg, k = rng.choice([(1, 1), (16, 2)])
+            vals = ints(k, [64, 255, 256])
+            cases.append((1, b'\x03' + bytes(rng.randrange(256) for _ in range(8)) + bytes([alg]), vals, b'', 'PKESK alg %d, loose MPIs' % alg))
+        elif t < 0.65:
+            alg = rng.choice([0, 2 if False else 21, 22, 19, 17, 23, 100, 110])
+            tail = bytes(rng.randrange(256) for _ in range(rng.choice([0, 1, 12, 40])))
+            cases.append((1, b'\x03' + bytes(rng.randrange(256) for _ in range(8)) + bytes([alg]), [], tail, 'PKESK of algorithm %d (no ciphertext class)' % alg))
+        elif t < 0.8:
+            alg = rng.choice([21, 23, 100, 110, 4, 0])
+            tail = bytes(rng.randrange(256) for _ in range(rng.choice([1, 5, 20, 60])))
+            cases.append((rng.choice([5, 7, 6, 14]), b'\x04' + created + bytes([alg]), [], tail, 'key packet of algorithm %d (no key class)' % alg))
+        else:
+            usage = rng.choice([1, 2, 3, 4, 7, 8, 9, 10, 11, 12, 13])
+            vals = ints(2, [64, 255])
+            tail = bytes([usage]) + bytes(rng.randrange(256) for _ in range(rng.choice([8, 16]))) + bytes(rng.randrange(256) for _ in range(rng.choice([20, 40, 130])))
+            cases.append((rng.choice([5, 7]), b'\x04' + created + b'\x01', vals, tail, 'secret key with legacy S2K usage octet %d' % usage))
+    for tag, head, vals, tail, what in cases:
+        body = head + b''.join(loose_mpi(v) for v in vals) + tail
+        data = S.new_header(tag, len(body)) + body
+        case = {'op': 'foreign-body', 'what': what, 'pkt': data.hex()}
+        ctx.case('foreign-bodies', data, sample={'what': what, 'tag': tag, 'len': len(body)})
+        o = outcome_timed(2.0, lambda: h.parse(data + TRAIL))
+        if o[0] != 'ok':
+            ctx.dist['foreign-bodies-refused'] = ctx.dist.get('foreign-bodies-refused', 0) + 1
+            continue
+        p, rest = o[1]
+        if rest != TRAIL:
+            ctx.fail('foreign-bodies', 'foreign packet: parsing did not consume exactly the packet', dict(case, rest=rest.hex()[:80])); continue
+        b1 = outcome(lambda: bytes(p.__bytearray__()))
+        if b1[0] != 'ok':
+            ctx.fail('foreign-bodies', 'cannot re-serialise an accepted foreign packet', dict(case, impl=repr(b1)[:200])); continue
+        b1 = b1[1]
+        sp = outcome(lambda: S.split_packets(b1 + TRAIL))
+        if sp[0] != 'ok' or len(sp[1]) < 1 or sp[1][0][2] != b1 or sp[1][0][0] != tag:
+            ctx.fail('foreign-bodies', 're-serialised foreign packet: header length does not equal the body length', dict(case, out=b1.hex()[:600])); continue
+        body1 = sp[1][0][1]
+        same = outcome(lambda: body1[:len(head)] == head and (lambda r: r[0] == vals and r[1] == tail)(_mpis(body1[len(head):], len(vals))))
+        if same != ('ok', True):
+            ctx.fail('foreign-bodies', 're-serialised foreign packet carries other field values', dict(case, out=b1.hex()[:600])); continue
+        o2 = outcome(lambda: h.parse(b1 + TRAIL))
+        if o2[0] != 'ok' or o2[1][1] != TRAIL or bytes(o2[1][0].__bytearray__()) != b1:
+            ctx.fail('foreign-bodies', 'normalised foreign packet is not a fixed point of parse/serialise', dict(case, out=b1.hex()[:600]))
+    # a getter must not change what is exported: user attributes without an image subpacket
+    for sub in (bytes([5, 100, 1, 2, 3, 4]), bytes([2, 101]), bytes([3, 1, 9, 9]) + bytes([2, 100])):
+        raw = S.new_header(17, len(sub)) + sub
+        ctx.case('foreign-bodies', ('image-getter', raw), sample={'what': 'user attribute without an image, .image read'})
+        def flow():
+            p, _ = h.parse(raw + TRAIL)
+            before = bytes(p.__bytearray__())
+            u = h.pgpy.PGPUID(); u._uid = p
+            try:
+                u.image
+            except Exception:
+                pass
+            return before == raw, bytes(p.__bytearray__()) == raw
+        o = outcome(flow)
+        if o != ('ok', (True, True)):
+            ctx.fail('foreign-bodies', 'reading PGPUID.image changes what a user attribute without image exports', {'op': 'foreign-body', 'what': 'image getter', 'pkt': raw.hex(), 'impl': repr(o)})
 
 
 def grow_after_parse(h):
@@ -524,6 +621,18 @@ def replay(ctx, case):
                     p2, rest2 = h.parse(b1 + TRAIL)
                     return rest == TRAIL and sp[0][2] == b1 and _sig_fields(sp[0][1]) == _sig_fields(body) and rest2 == TRAIL and bytes(p2.__bytearray__()) == b1
                 return outcome(flow) != ('ok', True)
+            if case.get('op') == 'foreign-body' and case.get('pkt') and case.get('what') != 'image getter':
+                data = bytes.fromhex(case['pkt'])
+                def flow():
+                    p, rest = h.parse(data + TRAIL)
+                    b1 = bytes(p.__bytearray__())
+                    sp = S.split_packets(b1 + TRAIL)
+                    p2, rest2 = h.parse(b1 + TRAIL)
+                    return rest == TRAIL and sp[0][2] == b1 and rest2 == TRAIL and bytes(p2.__bytearray__()) == b1
+                o = outcome(flow)
+                if case.get('out') and o == ('ok', True):
+                    return True          # framing is fine: the recorded failure was about field values; see the case
+                return o[0] == 'ok' and o[1] is not True
             if case.get('op') == 'foreign' and case.get('pkt'):
                 before = len(ctx.violations)
                 data = bytes.fromhex(case['pkt'])
